@@ -237,6 +237,19 @@ func VerifC02_GetTime() {
 	c02Time(0x32, "GetTime", func(u *uhppote, id uint32) (*types.Time, error) { return u.GetTime(id) })
 }
 
+// the same for a controller that is configured with a time zone (nil, UTC or the process zone)
+func VerifC02_GetTimeConfigured() {
+	c02Configured = true
+	defer func() { c02Configured = false }()
+	VerifC02_GetTime()
+}
+
+func VerifC02_GetStatusConfigured() {
+	c02Configured = true
+	defer func() { c02Configured = false }()
+	VerifC02_GetStatus()
+}
+
 func VerifC02_SetTime() {
 	c02Time(0x30, "SetTime", func(u *uhppote, id uint32) (*types.Time, error) {
 		return u.SetTime(id, time.Date(2024, time.February, 29, 12, 34, 56, 0, time.Local))
